@@ -1,2 +1,645 @@
-// Package c20: check for property C20 (see /verif/DESIGN.md §3 C20).
+// Package c20: fan-out outputs are complete, ordered and well-formed for any
+// history of target switches. E3 over target histories: ALL sequences of
+// (target, record) writes up to a length over a small target set are run
+// through the real tee/emit/print redirects and the split verb, in builds whose
+// open-handle LRU capacity (256) is reduced to 2 and 3 so that eviction and
+// revisit-after-eviction are inside the enumerated space; structured families
+// run at the real capacity. Every target file is parsed by an independent
+// reader as ONE document and compared with the reference partition.
 package c20
+
+import (
+	"encoding/json"
+	"fmt"
+	"os"
+	"path/filepath"
+	"sort"
+	"strings"
+
+	"verif/harness/vf"
+)
+
+func init() {
+	vf.Register(&vf.CheckDef{ID: "C20", Level: "model_checking", Run: run,
+		Workers: map[string]vf.WorkerFunc{"hist": histWorker, "real": realWorker}})
+}
+
+// ---------------------------------------------------------------- formats: independent single-document parsers
+
+type fmtSpec struct {
+	name string
+	flag string
+	ext  string
+	// parse returns the ids of the records in the file, the number of documents
+	// (headers / bracket pairs) found, and an error text for anything else.
+	parse func(text string, keys []string) (ids []string, docs int, bad string)
+}
+
+func fieldOf(keys []string, vals []string, k string) (string, bool) {
+	for i, x := range keys {
+		if x == k && i < len(vals) {
+			return vals[i], true
+		}
+	}
+	return "", false
+}
+
+func parseSeparated(sep string) func(string, []string) ([]string, int, string) {
+	return func(text string, keys []string) ([]string, int, string) {
+		if text == "" {
+			return nil, 0, ""
+		}
+		if !strings.HasSuffix(text, "\n") {
+			return nil, 0, "does not end in a newline"
+		}
+		lines := strings.Split(strings.TrimSuffix(text, "\n"), "\n")
+		header := strings.Join(keys, sep)
+		var ids []string
+		docs := 0
+		for i, ln := range lines {
+			if ln == header {
+				docs++
+				continue
+			}
+			if ln == "" {
+				continue // csvlite-style block separator: counted through the following header
+			}
+			if i == 0 {
+				return nil, 0, fmt.Sprintf("first line %q is not the header %q", ln, header)
+			}
+			f := strings.Split(ln, sep)
+			if len(f) != len(keys) {
+				return nil, docs, fmt.Sprintf("data line %q has %d fields, header has %d", ln, len(f), len(keys))
+			}
+			id, _ := fieldOf(keys, f, "id")
+			ids = append(ids, id)
+		}
+		return ids, docs, ""
+	}
+}
+
+func parseJSON(text string, keys []string) ([]string, int, string) {
+	if strings.TrimSpace(text) == "" {
+		return nil, 0, ""
+	}
+	dec := json.NewDecoder(strings.NewReader(text))
+	var ids []string
+	docs := 0
+	for {
+		var v any
+		err := dec.Decode(&v)
+		if err != nil {
+			if err.Error() == "EOF" {
+				break
+			}
+			return ids, docs, "not valid JSON: " + err.Error()
+		}
+		docs++
+		arr, ok := v.([]any)
+		if !ok {
+			return ids, docs, "top-level JSON value is not an array"
+		}
+		for _, e := range arr {
+			m, ok := e.(map[string]any)
+			if !ok {
+				return ids, docs, "array element is not an object"
+			}
+			ids = append(ids, fmt.Sprint(m["id"]))
+		}
+	}
+	return ids, docs, ""
+}
+
+func parseJSONL(text string, keys []string) ([]string, int, string) {
+	if text == "" {
+		return nil, 0, ""
+	}
+	var ids []string
+	for _, ln := range strings.Split(strings.TrimSuffix(text, "\n"), "\n") {
+		var m map[string]any
+		if err := json.Unmarshal([]byte(ln), &m); err != nil {
+			return ids, 1, fmt.Sprintf("line %q is not a JSON object", ln)
+		}
+		ids = append(ids, fmt.Sprint(m["id"]))
+	}
+	return ids, 1, ""
+}
+
+func parseDKVP(text string, keys []string) ([]string, int, string) {
+	if text == "" {
+		return nil, 0, ""
+	}
+	var ids []string
+	for _, ln := range strings.Split(strings.TrimSuffix(text, "\n"), "\n") {
+		id := ""
+		n := 0
+		for _, kv := range strings.Split(ln, ",") {
+			p := strings.SplitN(kv, "=", 2)
+			if len(p) != 2 {
+				return ids, 1, fmt.Sprintf("line %q is not key=value", ln)
+			}
+			n++
+			if p[0] == "id" {
+				id = p[1]
+			}
+		}
+		if n != len(keys) {
+			return ids, 1, fmt.Sprintf("line %q has %d fields, expected %d", ln, n, len(keys))
+		}
+		ids = append(ids, id)
+	}
+	return ids, 1, ""
+}
+
+func parsePPRINT(text string, keys []string) ([]string, int, string) {
+	if text == "" {
+		return nil, 0, ""
+	}
+	var ids []string
+	docs := 0
+	header := strings.Join(keys, " ")
+	for _, ln := range strings.Split(strings.TrimSuffix(text, "\n"), "\n") {
+		f := strings.Fields(ln)
+		if len(f) == 0 {
+			continue
+		}
+		if strings.Join(f, " ") == header {
+			docs++
+			continue
+		}
+		if docs == 0 {
+			return ids, 0, fmt.Sprintf("first line %q is not the header", ln)
+		}
+		if len(f) != len(keys) {
+			return ids, docs, fmt.Sprintf("row %q has %d columns, header has %d", ln, len(f), len(keys))
+		}
+		id, _ := fieldOf(keys, f, "id")
+		ids = append(ids, id)
+	}
+	return ids, docs, ""
+}
+
+func parseXTAB(text string, keys []string) ([]string, int, string) {
+	if text == "" {
+		return nil, 0, ""
+	}
+	var ids []string
+	docs := 1
+	for _, st := range strings.Split(strings.TrimSuffix(text, "\n"), "\n\n") {
+		lines := strings.Split(strings.Trim(st, "\n"), "\n")
+		if len(lines)%len(keys) != 0 {
+			return ids, docs, fmt.Sprintf("stanza %q has %d lines, expected %d", st, len(lines), len(keys))
+		}
+		// a stanza holding k records back to back = the blank separator line is missing k-1 times:
+		// the writer lost its "not the first record" state, i.e. the document was restarted
+		docs += len(lines)/len(keys) - 1
+		for i, ln := range lines {
+			f := strings.Fields(ln)
+			if len(f) != 2 || f[0] != keys[i%len(keys)] {
+				return ids, docs, fmt.Sprintf("stanza line %q is not %q and a value", ln, keys[i%len(keys)])
+			}
+			if f[0] == "id" {
+				ids = append(ids, f[1])
+			}
+		}
+	}
+	return ids, docs, ""
+}
+
+func parseMarkdown(text string, keys []string) ([]string, int, string) {
+	if text == "" {
+		return nil, 0, ""
+	}
+	var ids []string
+	docs := 0
+	header := "| " + strings.Join(keys, " | ") + " |"
+	lines := strings.Split(strings.TrimSuffix(text, "\n"), "\n")
+	for i := 0; i < len(lines); i++ {
+		ln := lines[i]
+		if ln == header {
+			docs++
+			if i+1 >= len(lines) || !strings.HasPrefix(lines[i+1], "| ---") {
+				return ids, docs, "header without separator line"
+			}
+			i++
+			continue
+		}
+		if ln == "" {
+			continue
+		}
+		if docs == 0 {
+			return ids, 0, fmt.Sprintf("first line %q is not the header", ln)
+		}
+		f := strings.Split(strings.Trim(ln, "| "), " | ")
+		if len(f) != len(keys) {
+			return ids, docs, fmt.Sprintf("row %q has %d cells", ln, len(f))
+		}
+		id, _ := fieldOf(keys, f, "id")
+		ids = append(ids, id)
+	}
+	return ids, docs, ""
+}
+
+func formats(quick bool) []fmtSpec {
+	all := []fmtSpec{
+		{"csv", "--ocsv", "csv", parseSeparated(",")},
+		{"json", "--ojson", "json", parseJSON},
+		{"dkvp", "--odkvp", "dkvp", parseDKVP},
+		{"pprint", "--opprint", "pprint", parsePPRINT},
+		{"tsv", "--otsv", "tsv", parseSeparated("\t")},
+		{"jsonl", "--ojsonl", "jsonl", parseJSONL},
+		{"xtab", "--oxtab", "xtab", parseXTAB},
+		{"markdown", "--omd", "markdown", parseMarkdown},
+		{"csvlite", "--ocsvlite", "csvlite", parseSeparated(",")},
+	}
+	if quick {
+		return all[:4]
+	}
+	return all
+}
+
+// ---------------------------------------------------------------- statements / verbs that route
+
+type router struct {
+	name  string
+	args  func(dir, ext string) []string // verb chain
+	file  func(dir, target, ext string) string
+	lines bool // print-style: the file holds the id lines, format-independent
+	appnd bool // >> / -a: the file starts with pre-existing content
+	mgrs  int  // number of handler managers sharing the LRU capacity semantics (1)
+}
+
+func routers(quick bool) []router {
+	q := func(s string) string { return `"` + s + `"` }
+	rs := []router{
+		{name: "put-tee>", args: func(d, e string) []string {
+			return []string{"put", "-q", `tee > ` + q(d+"/") + `.$t.` + q("."+e) + `, $*`}
+		},
+			file: func(d, t, e string) string { return filepath.Join(d, t+"."+e) }},
+		{name: "put-emit>", args: func(d, e string) []string {
+			return []string{"put", "-q", `emit > ` + q(d+"/") + `.$t.` + q("."+e) + `, mapexcept($*, "nosuch")`}
+		}, file: func(d, t, e string) string { return filepath.Join(d, t+"."+e) }},
+		{name: "put-print>", lines: true, args: func(d, e string) []string {
+			return []string{"put", "-q", `print > ` + q(d+"/") + `.$t.` + q(".txt") + `, $id`}
+		},
+			file: func(d, t, e string) string { return filepath.Join(d, t+".txt") }},
+		{name: "split-g", args: func(d, e string) []string { return []string{"split", "-g", "t", "--prefix", d + "/s"} },
+			file: func(d, t, e string) string { return filepath.Join(d, "s_"+t+"."+e) }},
+		{name: "put-tee>>", appnd: true, args: func(d, e string) []string {
+			return []string{"put", "-q", `tee >> ` + q(d+"/") + `.$t.` + q("."+e) + `, $*`}
+		},
+			file: func(d, t, e string) string { return filepath.Join(d, t+"."+e) }},
+	}
+	if !quick {
+		rs = append(rs,
+			router{name: "put-emitf>", args: func(d, e string) []string {
+				return []string{"put", "-q", `@id=$id; @t=$t; @v=$v; emitf > ` + q(d+"/") + `.$t.` + q("."+e) + `, @id, @t, @v`}
+			}, file: func(d, t, e string) string { return filepath.Join(d, t+"."+e) }},
+			router{name: "put-printn>", lines: true, args: func(d, e string) []string {
+				return []string{"put", "-q", `printn > ` + q(d+"/") + `.$t.` + q(".txt") + `, $id."\n"`}
+			}, file: func(d, t, e string) string { return filepath.Join(d, t+".txt") }},
+			router{name: "put-dump>", lines: true, args: func(d, e string) []string {
+				return []string{"put", "-q", `dump > ` + q(d+"/") + `.$t.` + q(".txt") + `, $id`}
+			}, file: func(d, t, e string) string { return filepath.Join(d, t+".txt") }},
+			router{name: "split-g-a", appnd: true, args: func(d, e string) []string { return []string{"split", "-a", "-g", "t", "--prefix", d + "/s"} },
+				file: func(d, t, e string) string { return filepath.Join(d, "s_"+t+"."+e) }},
+		)
+	}
+	return rs
+}
+
+// ---------------------------------------------------------------- LRU reference (which writes reopen an evicted target)
+
+func reopens(hist []int, capacity int) map[int]bool {
+	// returns the set of targets that are written again after having been evicted
+	var lru []int // most recent first
+	evicted := map[int]bool{}
+	out := map[int]bool{}
+	for _, t := range hist {
+		pos := -1
+		for i, x := range lru {
+			if x == t {
+				pos = i
+			}
+		}
+		if pos >= 0 {
+			lru = append(lru[:pos], lru[pos+1:]...)
+		} else {
+			if evicted[t] {
+				out[t] = true
+			}
+			if len(lru) >= capacity {
+				evicted[lru[len(lru)-1]] = true
+				lru = lru[:len(lru)-1]
+			}
+		}
+		lru = append([]int{t}, lru...)
+	}
+	return out
+}
+
+var targetNames = []string{"A", "B", "C", "D", "E"}
+
+// one history through one router/format; returns nothing, reports violations
+func runHistory(w *vf.Worker, capLabel string, capacity int, r router, f fmtSpec, hist []int, dir string) {
+	// clean
+	ents, _ := os.ReadDir(dir)
+	for _, e := range ents {
+		os.Remove(filepath.Join(dir, e.Name()))
+	}
+	keys := []string{"id", "t", "v"}
+	var in strings.Builder
+	routed := map[int][]string{}
+	for i, t := range hist {
+		id := fmt.Sprint(i + 1)
+		fmt.Fprintf(&in, "id=%s,t=%s,v=%d\n", id, targetNames[t], (i+1)*(i+1))
+		routed[t] = append(routed[t], id)
+	}
+	pre := ""
+	if r.appnd {
+		// pre-existing content: what the same format writes for one earlier record, produced by an
+		// independent formatting of a single record through the plain `cat` path of the real writer
+		res := vf.RunMlr([]string{f.flag, "cat"}, vf.MlrOpts{Stdin: ptr("id=0,t=Z,v=0\n")})
+		pre = res.Stdout
+		for t := range routed {
+			os.WriteFile(r.file(dir, targetNames[t], f.ext), []byte(pre), 0644)
+		}
+	}
+	args := append([]string{f.flag}, r.args(dir, f.ext)...)
+	s := in.String()
+	res := vf.RunMlr(args, vf.MlrOpts{Stdin: &s})
+	w.Eval(1)
+	hs := histString(hist)
+	base := fmt.Sprintf("%s:cap=%s:%s", r.name, capLabel, hs)
+	rp := map[string]any{"argv": args, "input": s, "lru_capacity": capLabel, "history": hs}
+	if !res.OK() {
+		w.Violation(fmt.Sprintf("run-failed[%s]:%s", f.name, base), fmt.Sprintf("mlr %s on history %s: %s", strings.Join(args, " "), hs, res.String()), rp)
+		return
+	}
+	re := reopens(hist, capacity)
+	seen := map[string]bool{}
+	var union []string
+	for t, want := range routed {
+		p := r.file(dir, targetNames[t], f.ext)
+		seen[filepath.Base(p)] = true
+		b, err := os.ReadFile(p)
+		if err != nil {
+			w.Violation(fmt.Sprintf("missing-file[%s]:%s", f.name, base), fmt.Sprintf("target %s of history %s was never written: %v", targetNames[t], hs, err), rp)
+			continue
+		}
+		text := string(b)
+		var ids []string
+		docs := 1
+		bad := ""
+		if r.lines {
+			if text != "" {
+				ids = strings.Split(strings.TrimSuffix(text, "\n"), "\n")
+			}
+		} else {
+			body := text
+			if r.appnd {
+				if !strings.HasPrefix(text, pre) {
+					w.Violation(fmt.Sprintf("append-clobbered[%s]:%s", f.name, base), fmt.Sprintf("append mode: pre-existing content of target %s is gone: %q", targetNames[t], trunc(text, 200)), rp)
+					continue
+				}
+				body = text[len(pre):]
+			}
+			ids, docs, bad = f.parse(body, keys)
+		}
+		union = append(union, ids...)
+		if bad != "" {
+			w.Violation(fmt.Sprintf("malformed[%s]:%s", f.name, base), fmt.Sprintf("target %s of history %s is not a well-formed %s document: %s: %q", targetNames[t], hs, f.name, bad, trunc(text, 300)), rp)
+			continue
+		}
+		if strings.Join(ids, ",") != strings.Join(want, ",") {
+			w.Violation(fmt.Sprintf("records[%s]:%s", f.name, base), fmt.Sprintf("target %s of history %s holds records %v, routed were %v", targetNames[t], hs, ids, want), rp)
+			continue
+		}
+		if docs > 1 {
+			if re[t] {
+				w.Violation(fmt.Sprintf("reopen-restarts-document[%s]:%s", f.name, base), fmt.Sprintf("target %s of history %s (LRU capacity %s) was evicted and written again: its %s file contains %d documents (headers / bracket pairs) instead of one: %q", targetNames[t], hs, capLabel, f.name, docs, trunc(text, 300)), rp)
+			} else {
+				w.Violation(fmt.Sprintf("multiple-documents[%s]:%s", f.name, base), fmt.Sprintf("target %s of history %s contains %d documents although it was never evicted: %q", targetNames[t], hs, docs, trunc(text, 300)), rp)
+			}
+			continue
+		}
+		w.Count("target_files_well_formed", 1)
+		if re[t] {
+			w.Count("target_files_reopened_after_eviction_and_well_formed", 1)
+		}
+	}
+	if len(re) > 0 {
+		w.Count("histories_with_revisit_after_eviction", 1)
+		w.Nontrivial(1)
+	} else if len(routed) > capacity {
+		w.Count("histories_with_eviction_only", 1)
+	}
+	// nothing else may appear
+	ents, _ = os.ReadDir(dir)
+	for _, e := range ents {
+		if !seen[e.Name()] {
+			w.Violation(fmt.Sprintf("stray-file[%s]:%s", f.name, base), fmt.Sprintf("history %s: unexpected file %s", hs, e.Name()), rp)
+		}
+	}
+	sort.Strings(union)
+	if len(union) != len(hist) && !w.HasViolationPrefix(base) {
+		w.Violation(fmt.Sprintf("union[%s]:%s", f.name, base), fmt.Sprintf("history %s: union of all targets holds %d records, routed %d", hs, len(union), len(hist)), rp)
+	}
+	w.Count("router:"+r.name, 1)
+	w.Count("format:"+f.name, 1)
+}
+
+func ptr(s string) *string { return &s }
+
+func histString(h []int) string {
+	if len(h) > 24 {
+		return fmt.Sprintf("len%d", len(h))
+	}
+	var b strings.Builder
+	for _, t := range h {
+		b.WriteString(targetNames[t%len(targetNames)])
+	}
+	if b.Len() == 0 {
+		return "(empty)"
+	}
+	return fmt.Sprintf("%02d-%s", len(h), b.String())
+}
+
+func trunc(s string, n int) string {
+	if len(s) > n {
+		return s[:n] + "..."
+	}
+	return s
+}
+
+type histArgs struct {
+	Capacity int `json:"capacity"`
+	Targets  int `json:"targets"`
+	MaxLen   int `json:"maxlen"`
+}
+
+func histWorker(w *vf.Worker) {
+	var a histArgs
+	json.Unmarshal(w.Args, &a)
+	dir, err := os.MkdirTemp("/dev/shm", "verif-c20-")
+	if err != nil {
+		w.Broken("tempdir: %v", err)
+		return
+	}
+	defer os.RemoveAll(dir)
+	fs := formats(w.Quick())
+	rs := routers(w.Quick())
+	var idx uint64
+	// canonical enumeration: by length, then lexicographic
+	for L := 0; L <= a.MaxLen; L++ {
+		hist := make([]int, L)
+		for {
+			// canonical form under target renaming: first occurrences appear in order A,B,C... (halves the space, loses nothing:
+			// targets are interchangeable names)
+			canon := true
+			next := 0
+			for _, t := range hist {
+				if t > next {
+					canon = false
+					break
+				}
+				if t == next {
+					next++
+				}
+			}
+			if canon {
+				idx++
+				if w.Mine(idx) {
+					w.Begin(idx)
+					w.Label(func() string { return histString(hist) })
+					for _, r := range rs {
+						for _, f := range fs {
+							if r.lines && f.name != fs[0].name {
+								continue
+							}
+							runHistory(w, fmt.Sprint(a.Capacity), a.Capacity, r, f, hist, dir)
+						}
+					}
+					w.Rep.States++
+					w.Rep.Transitions += int64(L)
+					if len(w.Rep.Samples) < 1 && L == a.MaxLen {
+						w.Sample(map[string]any{"history": histString(hist), "lru_capacity": a.Capacity, "routers": len(rs), "formats": len(fs)})
+					}
+				}
+			}
+			// increment
+			i := L - 1
+			for i >= 0 {
+				hist[i]++
+				if hist[i] < a.Targets {
+					break
+				}
+				hist[i] = 0
+				i--
+			}
+			if i < 0 {
+				break
+			}
+		}
+	}
+}
+
+// real capacity (256): structured families
+func realWorker(w *vf.Worker) {
+	dir, err := os.MkdirTemp("/dev/shm", "verif-c20r-")
+	if err != nil {
+		w.Broken("tempdir: %v", err)
+		return
+	}
+	defer os.RemoveAll(dir)
+	names := func(n int) {
+		targetNames = targetNames[:0]
+		for i := 0; i < n; i++ {
+			targetNames = append(targetNames, fmt.Sprintf("T%03d", i))
+		}
+	}
+	type fam struct {
+		name string
+		hist []int
+	}
+	var fams []fam
+	seq := func(a, b int) []int {
+		var s []int
+		for i := a; i < b; i++ {
+			s = append(s, i)
+		}
+		return s
+	}
+	fams = append(fams,
+		fam{"cyclic-258x2", append(seq(0, 258), seq(0, 258)...)},
+		fam{"revisit-after-gap-1+256+1", append(append([]int{0}, seq(1, 257)...), 0)},
+		fam{"within-capacity-256x2", append(seq(0, 256), seq(0, 256)...)},
+		fam{"sawtooth-300", func() []int {
+			var s []int
+			for i := 0; i < 300; i++ {
+				s = append(s, i, 0)
+			}
+			return s
+		}()},
+		fam{"two-pass-300", append(seq(0, 300), seq(0, 300)...)},
+	)
+	fs := formats(true)[:3]
+	rs := routers(true)[:1]
+	rs = append(rs, routers(true)[3]) // split -g
+	var idx uint64
+	for _, fm := range fams {
+		for _, r := range rs {
+			for _, f := range fs {
+				idx++
+				if !w.Mine(idx) {
+					continue
+				}
+				w.Begin(idx)
+				w.Label(func() string { return fm.name + " " + r.name + " " + f.name })
+				names(301)
+				sub := filepath.Join(dir, fmt.Sprint(idx))
+				os.MkdirAll(sub, 0755)
+				rr := r
+				name := r.name
+				rr.name = name + ":" + fm.name
+				runHistory(w, "256(real)", 256, rr, f, fm.hist, sub)
+				os.RemoveAll(sub)
+				w.Rep.States++
+				w.Rep.Transitions += int64(len(fm.hist))
+				w.Count("real_capacity_families", 1)
+			}
+		}
+	}
+}
+
+func run(c *vf.Ctx) {
+	c.Rule = "a history is a sequence of (target, record) writes; ALL histories up to the length bound over the target set are enumerated up to target renaming (canonical form: first occurrences in order), each through every routing statement/verb x output format, in builds whose LRU capacity constant is 2 and 3; structured families (cyclic, revisit after a 256-gap, sawtooth, two-pass) at the real capacity 256. evaluations = invocations; states = distinct histories; distinct_nontrivial = invocations whose history revisits a target after its eviction"
+	c.Assume("the reduced-capacity builds differ from the real one only in the literal of lruFileHandlerCapacity (tools/vinstr -const); the families at 256 bind the reduced model to the real constant")
+	c.Assume("pipe targets (| cmd) are external processes and not enumerated here; names needing escaping are covered by C12/C17 style checks of split only through -g values A..E (no escaping needed)")
+	c.Assume("each target's records are homogeneous (same keys): heterogeneity inside one CSV target is C17's schema-change fault")
+	type v struct {
+		bin     string
+		a       histArgs
+		shards  int
+		variant string
+	}
+	L2, L3 := 6, 5
+	T2, T3 := 4, 5
+	if !c.Quick() {
+		L2, L3, T2, T3 = 8, 7, 4, 5
+	}
+	variants := []v{
+		{os.Getenv("VERIF_BIN_LRU2"), histArgs{Capacity: 2, Targets: T2, MaxLen: L2}, 64, "lru2"},
+		{os.Getenv("VERIF_BIN_LRU3"), histArgs{Capacity: 3, Targets: T3, MaxLen: L3}, 64, "lru3"},
+	}
+	for _, x := range variants {
+		if x.bin == "" {
+			c.Broken("variant binary for %s missing", x.variant)
+			return
+		}
+		c.RunPool(vf.PoolSpec{Worker: "hist", Bin: x.bin, Args: x.a, Shards: x.shards, StallSecs: 600})
+	}
+	c.RunPool(vf.PoolSpec{Worker: "real", Shards: 32, StallSecs: 900})
+	c.TracesValidated = c.Evaluations
+	c.Extra["bounds"] = map[string]any{"capacity2": map[string]int{"targets": T2, "maxlen": L2}, "capacity3": map[string]int{"targets": T3, "maxlen": L3}}
+}
